@@ -19,7 +19,7 @@ RULE = ('cases = flat machines of the C01 generator with a DETERMINISTIC env (re
         'Non-trivial: some may_ call evaluated >= 1 failing check or >= 2 candidates; distinct by case hash.')
 ASSUMPTIONS = ['conditions are deterministic (the hypothesis of C12)',
                'the exception-routing clause of C12 is tied by correspondence only (no theorem yet)']
-THEOREMS = ['C12_pure', 'C12_iff', 'C12_iff_refuted', 'C12_nonvacuous']
+THEOREMS = ['C12_pure', 'C12_iff', 'C12_iff_refuted', 'C12_nonvacuous', 'C12_hsm_pure']
 
 
 def gen(rng, i, tier):
